@@ -153,6 +153,28 @@ theorem lexsort_to_indices_sorted_prefix (sortBy : PartialSorter) (hs : SortCont
       (lexsortToIndices sortBy cs rowCount limit) (min (limit.getD rowCount) rowCount) :=
   lexsortToIndices_ok sortBy hs cs hcs rowCount limit
 
+/-- **The sorting contract is satisfiable** (core `List.mergeSort` meets it), so the sort
+theorems are not vacuous. -/
+theorem sort_contract_satisfiable : SortContract mergeSorter := mergeSorter_contract
+
+example : sortToIndices mergeSorter (fun x y : Int => compare x y) ⟨true, false⟩
+    [some 5, none, some 1, some 5, none, some (-2)] (some 4) = [0, 3, 2, 5] := by decide
+
+/-! ## (5) partition (rank: see `props/C10.json`, tested against `rankSpec` only) -/
+
+/-- **`partition` boundaries** (`find_boundaries` per column, OR-ed): bit `i` is set exactly
+when rows `i` and `i+1` differ under the tuple comparator of the columns. -/
+theorem partition_boundaries_are_comparator_changes (cs : List (Nat → Nat → Ordering))
+    (hcs : cs ≠ []) (len : Nat) :
+    partitionBounds cs len = boundarySpec (lexCmp cs) len := partitionBounds_eq cs hcs len
+
+/-- **`Partitions::ranges`** (walk over the set bits, trailing range) yields the maximal runs
+of rows without a boundary between them, for every mask. -/
+theorem partition_ranges_are_runs (bounds : List Bool) (len : Nat) :
+    partitionRanges bounds len = rangesSpec bounds len := partitionRanges_eq bounds len
+
+example : partitionRanges [false, true, false, false, true] 6 = [(0, 2), (2, 5), (5, 6)] := by decide
+
 /-! ## (6) comparison kernels -/
 
 /-- **`compare_op`**: with `is_eq`/`is_lt` induced by the comparator, every kernel returns
